@@ -113,7 +113,11 @@ def ops_3d(dims, bs, rng, n, tracecount=None, structured=True):
             a = rng.randrange(L)
             b = rng.randrange(a + 1, L + 1)
             e, f = rand_range(nZ, bs[2], rng)
-            if rng.random() < 0.3:
+            r_ = rng.random()
+            if r_ < 0.12:
+                # one-sided windows
+                ops.append((name, rng.choice([(d, a), (d, None, b), (d, None, None, e), (d, None, None, None, f), (d, a, None, None, f)])))
+            elif r_ < 0.3:
                 ops.append((name, (d, a, b)))
             elif rng.random() < 0.5:
                 ops.append((name, (d, None, None, e, f)))
@@ -170,11 +174,12 @@ def expected_3d(V, op, grid_of=None):
             full = np.array([V[i, i - d] for i in range(nI) if 0 <= i - d < nX])
         else:
             full = np.array([V[i, d - i] for i in range(nI) if 0 <= d - i < nX])
-        if len(a) >= 3 and a[1] is not None and a[2] is not None:
-            full = full[a[1]:a[2]]
-        if len(a) >= 5 and a[3] is not None and a[4] is not None:
-            full = full[:, a[3]:a[4]]
-        return full
+        # (a bound given on its own is a window too: the other end is the end of the diagonal / of the trace)
+        lo = a[1] if len(a) > 1 and a[1] is not None else 0
+        hi = a[2] if len(a) > 2 and a[2] is not None else len(full)
+        zlo = a[3] if len(a) > 3 and a[3] is not None else 0
+        zhi = a[4] if len(a) > 4 and a[4] is not None else full.shape[1]
+        return full[lo:hi, zlo:zhi]
     raise KeyError(name)
 
 
@@ -198,12 +203,15 @@ def numpy_args(op, rng):
     return (op[0], op[1], {'_call': tuple(conv(v) for v in op[1])})
 
 
-def check_ops(reader, ops, expect, tag=''):
-    """Run ops on reader, compare with expect(op).  Returns (mismatches, n_compared)."""
+def check_ops(reader, ops, expect, tag='', between=None):
+    """Run ops on reader, compare with expect(op).  Returns (mismatches, n_compared).  between(): called before every op (what the
+    caller of the library does in between, e.g. with a handle it shares with the reader)."""
     bad, n = [], 0
     kept = []          # the last results themselves: they must still be right after the reads that follow (a caller keeps what it was given)
     for op in ops:
         exp = expect(op)
+        if between is not None:
+            between()
         try:
             got = getattr(reader, op[0])(*(op[2]['_call'] if len(op) > 2 and '_call' in op[2] else op[1]))
         except Exception as e:  # noqa
